@@ -178,6 +178,9 @@ def run(ctx, eng):
                'is reported whatever was delivered before it: the parser '
                'keeps no state from incomplete input beyond the bytes')
     cm.check_event_classes(ctx, eng, {'PingReceived', 'PingAckReceived'})
+    cm.include(ctx, eng, 'C02', {'TAB.preface', 'OWN.buffer'},
+               'a queued ACK stays queued: the preface is appended to the '
+               'output, it does not replace it')
     # "every received PING": no payload makes the handler give up - the only
     # refusal is the connection machine's (a closed connection)
     fpi = eng.m.func('connection.H2Connection._receive_ping_frame')
